@@ -31,6 +31,7 @@ type MOp struct {
 	L  int    `json:"l,omitempty"`
 	T  int    `json:"t,omitempty"`
 	WT *int   `json:"wt,omitempty"` // WithWriteTime, see WOp.WT
+	Sp int    `json:"sp,omitempty"` // the caller's spelling of the id, see WOp.Sp
 }
 
 type MSub struct {
@@ -62,7 +63,10 @@ func includeFunc(name string) resource.FilterFunc {
 		if id == "zz" { // the harness's own marker item is visible to everybody
 			return true
 		}
-		n, _ := strconv.Atoi(strings.TrimPrefix(id, "i"))
+		n, err := strconv.Atoi(decodeID(id))
+		if err != nil { // not a stored id: an item nobody may be shown
+			return false
+		}
 		p, ok := pairOf(m)
 		return ok && included(name, n, p)
 	}
@@ -79,6 +83,8 @@ type MaskScenario struct {
 	// level / only target (an absent message is equivalent to an absent one only). Clock: see scriptClock.
 	Eq    string `json:"eq,omitempty"`
 	Clock string `json:"clock,omitempty"`
+	// Icpt: the collection has an id interceptor (icptFunc in main.go); operations spell their ids as MOp.Sp says
+	Icpt string `json:"icpt,omitempty"`
 }
 
 // eqPair: the equivalences on plain pairs (the oracle's own copy)
@@ -215,8 +221,12 @@ func runMasks(sc MaskScenario) (*verdict, *maskResult) {
 		val = resource.NewValue(opts...)
 	} else {
 		opts := resourceOptions(sc.Eq, sc.Clock)
+		if f := icptFunc(sc.Icpt); f != nil {
+			opts = append(opts, resource.WithIDInterceptor(f))
+		}
 		for k, l := range sc.Init {
-			opts = append(opts, resource.WithInitialRecord("i"+k, bright(l, l+1)))
+			n, _ := strconv.Atoi(k)
+			opts = append(opts, resource.WithInitialRecord(spell(sc.Icpt, n, n+1), bright(l, l+1)))
 		}
 		coll = resource.NewCollection(opts...)
 	}
@@ -259,7 +269,7 @@ func runMasks(sc MaskScenario) (*verdict, *maskResult) {
 					}
 					continue
 				}
-				id := strings.TrimPrefix(e.Id, "i")
+				id := decodeID(e.Id)
 				if e.ChangeType == types.ChangeType_REMOVE {
 					c.apply(id, pair{}, true)
 				} else {
@@ -281,11 +291,11 @@ func runMasks(sc MaskScenario) (*verdict, *maskResult) {
 		}
 		switch {
 		case op.K == "d":
-			coll.Delete("i"+strconv.Itoa(op.ID), wopts...)
+			coll.Delete(spell(sc.Icpt, op.ID, op.Sp), wopts...)
 		case sc.Res == "value":
 			val.Set(bright(op.L, op.T), wopts...)
 		default:
-			coll.Update("i"+strconv.Itoa(op.ID), bright(op.L, op.T), append(wopts, resource.WithCreateIfAbsent())...)
+			coll.Update(spell(sc.Icpt, op.ID, op.Sp), bright(op.L, op.T), append(wopts, resource.WithCreateIfAbsent())...)
 		}
 		for i, s := range sc.Subs {
 			if cons[i] == nil && s.Late == n+1 {
@@ -306,7 +316,7 @@ func runMasks(sc MaskScenario) (*verdict, *maskResult) {
 		}
 	} else {
 		for id := 0; id < 9; id++ {
-			if m, ok := coll.Get("i" + strconv.Itoa(id)); ok {
+			if m, ok := coll.Get(spell(sc.Icpt, id, 1)); ok {
 				p, _ := pairOf(m)
 				contents[strconv.Itoa(id)] = p
 			}
@@ -693,6 +703,13 @@ func genMasks(rng *rand.Rand) MaskScenario {
 		}
 		sc.Subs = append(sc.Subs, s)
 	}
+	if sc.Res == "coll" && rng.Intn(3) == 0 {
+		// a collection with an id interceptor, every call spelling its id its own way
+		sc.Icpt = icptKinds[rng.Intn(len(icptKinds))]
+		for i := range sc.Ops {
+			sc.Ops[i].Sp = rng.Intn(2)
+		}
+	}
 	return sc
 }
 
@@ -719,7 +736,7 @@ func masksMonitor(f lib.Flags, res *lib.Result, rng *rand.Rand) {
 		}
 		mon.Eval(sc.key(), distinct, nil)
 		mon.Count(sc.Res)
-		in := map[string]any{"mode": "masks", "res": sc.Res, "init": sc.Init, "ops": sc.Ops, "subs": sc.Subs, "eq": sc.Eq, "clock": sc.Clock}
+		in := map[string]any{"mode": "masks", "res": sc.Res, "init": sc.Init, "ops": sc.Ops, "subs": sc.Subs, "eq": sc.Eq, "clock": sc.Clock, "icpt": sc.Icpt}
 		v, mr := runMasks(sc)
 		if v != nil {
 			mon.Violate(v.sig, v.what, in, v.expected, v.observed)
